@@ -333,6 +333,11 @@ theorem good_setW (s : State) (j : Nat) (x : Waiter) (o : Option Nat) (q : List 
     · subst htj; simp only [setW, if_true] at h ⊢; exact hinfl e h
     · simp only [setW, htj, if_false] at h ⊢; exact g.infl t e h
 
+/-- the ghost bookkeeping fields play no role in `Good` -/
+theorem good_ghost (s : State) (iw : List Nat) (iss : Nat) (g : Good s) :
+    Good { s with inwait := iw, issued := iss } :=
+  ⟨g.owner, g.wf, g.cur, g.err, g.infl, g.ident, g.pass⟩
+
 /-- a notify: only futures change -/
 theorem good_notify (s : State) (w' : Nat → Waiter) (g : Good s)
     (hs : ∀ t, SameButFut (w' t) (s.w t)) : Good { s with w := w' } := by
@@ -433,7 +438,10 @@ theorem good_step (s s' : State) (ev : Event) (g : Good s) (h : step s ev = some
     split at h
     · rename_i hc
       injection h with h; subst h
-      refine good_setW s j _ none _ _ g ?_ (by simp) (by simp) (g.infl j)
+      refine good_ghost _ (s.inwait ++ [j]) s.issued
+        (good_setW s j { s.w j with pc := .waiting, pri := pri, arr := s.arrival, fut := .pending,
+                                    cur := none, err := none, thrown := false }
+          none (s.queue ++ [j]) (s.arrival + 1) g ?_ (by simp) (by simp) (g.infl j))
       intro t h1 h2
       by_cases htj : t = j
       · subst htj; simp [setW] at h2
@@ -545,13 +553,13 @@ theorem good_step (s s' : State) (ev : Event) (g : Good s) (h : step s ev = some
     simp only [step] at h
     split at h
     · injection h with h; subst h
-      exact good_notify s _ g (notifyFn_same s.kind n s.w s.queue)
+      exact good_ghost _ s.inwait _ (good_notify s _ g (notifyFn_same s.kind n s.w s.queue))
     · cases h
   | notifyAll j =>
     simp only [step] at h
     split at h
     · injection h with h; subst h
-      exact good_notify s _ g (notifyFn_same s.kind _ s.w s.queue)
+      exact good_ghost _ s.inwait _ (good_notify s _ g (notifyFn_same s.kind s.queue.length s.w s.queue))
     · cases h
 
 theorem good_run : ∀ (es : List Event) (s s' : State), Good s → run s es = some s' → Good s'
